@@ -1006,6 +1006,155 @@ def norm_chain(t, k, repo):
                 "    fn poll_next(self: Pin<&mut Self>, cx: &mut Context<'_>) -> Poll<Option<Self::Item>> {\n        %s\n    }\n}\n" % ' '.join(body))
     return struct_txt + "\n" + ctor_txt + "\n" + poll_txt
 
+
+def norm_race_ok(t, k, repo):
+    """the tuple `race_ok` (src/future/race_ok/tuple/mod.rs): like the tuple `race` (children = fields of the struct, dispatch
+    over a local `#[repr(usize)] enum Indexes`), plus the error slots of the array container; the arity is the constant
+    `RaceOk<k>: usize = 0 + 1 + … + 1` (checked); R10: `<iter>.filter(f).for_each(|(st, err)| { B })` in the destructor is
+    written as `for (st, err) in <iter>.filter(f) { B }`"""
+    S = 'RaceOk' + str(k)
+    ones = ['0'] + ['+', '1'] * k
+    if find(t, ['const', S, ':', 'usize', '='] + ones + [';']) < 0:
+        raise NormError(f"R1: the constant {S} is not the number of children")
+    si = find(t, ['struct', S, '<'])
+    if si < 0:
+        raise NormError(f"struct {S} not found")
+    gn, ge = names_of(t, si + 2)
+    sb = t.index('{', t.index('{', ge) if False else ge)
+    # skip the where clause: the struct body is the first `{` at bracket depth 0 after the generics
+    j, d = ge + 1, 0
+    while not (t[j] == '{' and d == 0):
+        d += t[j] in '<(' and 1 or 0
+        d -= t[j] in '>)' and 1 or 0
+        j += 1
+    sb = j
+    fields, names = [], []
+    for nm, ty in fields_of(strip_attrs(t[sb + 1:close(t, sb)])):
+        if ty == [nm] and nm in gn:
+            names.append(nm); continue
+        if names:
+            raise NormError(f"struct {S}: a field follows the children")
+        if ty in (['utils', '::', 'Indexer'], ['Indexer']):
+            fields.append((nm, 'Indexer'))
+        elif ty in (['bool'], ['usize']):
+            fields.append((nm, ty[0]))
+        elif ty == ['[', 'MaybeUninit', '<', 'ERR', '>', ';', S, ']']:
+            fields.append((nm, '[MaybeUninit<E>; N]'))
+        elif ty == ['PollArray', '<', '{', S, '}', '>']:
+            fields.append((nm, 'PollArray<N>'))
+        else:
+            raise NormError(f"R6: struct {S}: field `{nm}` has a type the rule does not cover: {' '.join(ty)}")
+    if len(names) != k:
+        raise NormError(f"struct {S} has {len(names)} children, expected {k}")
+    fields.append(('futures', '[Fut; N]'))
+    struct_txt = "pub struct RaceOk<Fut, T, E, const N: usize> {\n%s}\n" % ''.join(f"    {n_}: {ty},\n" for n_, ty in fields)
+    pi = find(t, ['Future', 'for', S, '<'], si)
+    if pi < 0:
+        raise NormError(f"impl Future for {S} not found")
+    pf = find(t, ['fn', 'poll', '('], pi)
+    pb = t.index('{', close(t, pf + 2))
+    body = t[pb + 1:close(t, pb)]
+    c0 = ['const', 'LEN', ':', 'usize', '=', S, ';']
+    if find(body, c0) < 0:
+        raise NormError("R1: `const LEN: usize = <arity constant>;` not found in poll")
+    body = ['N' if x == 'LEN' else x for x in replace_all(body, c0, [])]
+    body = fold_assert(body)
+    en = ['#', '[', 'repr', '(', 'usize', ')', ']', 'enum', 'Indexes', '{'] + sum(([n_, ','] for n_ in names), []) + ['}']
+    if find(body, en) < 0:
+        raise NormError("R8: the local `#[repr(usize)] enum Indexes` does not list the children in order")
+    body = strip_attrs(replace_all(body, en, []))
+    head = lambda F: ['if', 'i', '==', 'Indexes', '::', F, 'as', 'usize', '{']
+    i = find(body, head(names[0]))
+    if i < 0:
+        raise NormError("R3: no index dispatch found")
+    j, bodies = i, []
+    for F in names:
+        h = head(F)
+        if body[j:j + len(h)] != h:
+            raise NormError("R3: an arm of the index dispatch is missing or out of order")
+        e = close(body, j + len(h) - 1)
+        b = replace_all(body[j + len(h):e], ['unsafe', '{', 'Pin', '::', 'new_unchecked', '(', '&', 'mut', 'this', '.', F, ')', '}'], ['fut'])
+        if F in b:
+            raise NormError("R3: an arm mentions its child in a way the rule does not cover")
+        bodies.append(b)
+        j = e + 1
+        if j < len(body) and body[j] == ';':
+            j += 1
+    if body[j:j + 3] == ['if', 'i', '==']:
+        raise NormError("R3: more arms than children")
+    if any(b != bodies[0] for b in bodies):
+        raise NormError("R3: the arms of the index dispatch differ between children")
+    body = body[:i] + ['if', 'i', '<', 'N', '{', 'let', 'fut', '=', 'utils', '::', 'get_pin_mut', '(', 'this', '.', 'futures', '.', 'as_mut', '(', ')', ',', 'i', ')', '.', 'unwrap', '(', ')', ';'] + bodies[0] + ['}'] + body[j:]
+    if any(n_ in body for n_ in names if n_ != 'N') or 'Indexes' in body or S in body:
+        raise NormError("poll mentions a child or the arity constant outside the rules")
+    # ---- destructor
+    di = find(t, ['PinnedDrop', 'for', S, '<'], si)
+    if di < 0:
+        raise NormError(f"PinnedDrop for {S} not found")
+    df = find(t, ['fn', '__drop_inner', '<'], di)
+    j, d = t.index('(', df), 0
+    j = close(t, j) + 1
+    while not (t[j] == '{' and d == 0):
+        d += t[j] in '<(' and 1 or 0
+        d -= t[j] in '>)' and 1 or 0
+        j += 1
+    db = j
+    dbody = strip_attrs(t[db + 1:close(t, db)])
+    dbody = replace_all(dbody, ['fn', '__drop_inner', '(', ')', '{', '}'], [])
+    dbody = replace_all(dbody, ['__self', '.', 'project', '(', ')'], ['self', '.', 'project', '(', ')'])
+    fe = find(dbody, ['.', 'for_each', '(', '|', '(', 'st', ',', 'err', ')', '|', '{'])
+    if fe < 0:
+        raise NormError("R10: the destructor is not `<iter>.filter(..).for_each(|(st, err)| { .. })`")
+    st0 = find(dbody, ['this', '.'], find(dbody, [';']) + 1)
+    ce = close(dbody, fe + 10)
+    if dbody[ce + 1:ce + 3] != [')', ';'] or dbody[ce + 3:] != []:
+        raise NormError("R10: something follows the for_each of the destructor")
+    dbody = dbody[:st0] + ['for', '(', 'st', ',', 'err', ')', 'in'] + dbody[st0:fe] + ['{'] + dbody[fe + 11:ce] + ['}']
+    # ---- constructor
+    pat = ['RaceOk', 'for', '('] + (([names[0], ',', ')']) if k == 1 else (sum(([n_, ','] for n_ in names), [])[:-1] + [')']))
+    ci, st_ = -1, 0
+    while True:
+        c = find(t, pat, st_)
+        if c < 0:
+            break
+        cf = find(t, ['fn', 'race_ok', '(', 'self', ')'], c)
+        cb = t.index('{', cf)
+        if find(t[cb:close(t, cb)], [S, '{']) >= 0:
+            ci = c; break
+        st_ = c + 1
+    if ci < 0:
+        raise NormError("constructor impl not found")
+    cf = find(t, ['fn', 'race_ok', '(', 'self', ')'], ci)
+    cb = t.index('{', cf)
+    cbody = t[cb + 1:close(t, cb)]
+    li_ = find(cbody, [S, '{'])
+    lit = replace_all(cbody[li_ + 2:close(cbody, li_ + 1)] + ['}'], [',', '}'], ['}'])[:-1]
+    inits, kidseen = [], []
+    for nm, v in fields_of(lit + [',']):
+        if nm in names and v == [nm, '.', 'into_future', '(', ')']:
+            kidseen.append(nm); continue
+        if v in (['utils', '::', 'Indexer', '::', 'new', '(', S, ')'], ['Indexer', '::', 'new', '(', S, ')']):
+            v2 = 'Indexer::new(N)'
+        elif v == ['array', '::', 'from_fn', '(', '|', '_', '|', 'MaybeUninit', '::', 'uninit', '(', ')', ')']:
+            v2 = 'array::from_fn(|_| MaybeUninit::uninit())'
+        elif v == ['PollArray', '::', 'new_pending', '(', ')']:
+            v2 = 'PollArray::new_pending()'
+        elif len(v) == 1 and re.match(r'\d+$|true$|false$', v[0]):
+            v2 = v[0]
+        else:
+            raise NormError(f"R6: constructor: field `{nm}` is initialised in a way the rule does not cover: {' '.join(v)}")
+        inits.append((nm, v2))
+    if kidseen != names:
+        raise NormError("constructor: the children are not moved into their fields in order")
+    inits.append(('futures', 'futures'))
+    G = "Fut, T, E, const N: usize"
+    ctor_txt = ("impl<%s> RaceOk<Fut, T, E, N> {\n    pub(crate) fn new(futures: [Fut; N]) -> Self {\n        RaceOk {\n%s        }\n    }\n}\n"
+                % (G, ''.join(f"            {n_}: {v},\n" for n_, v in inits)))
+    poll_txt = ("impl<%s> Future for RaceOk<Fut, T, E, N> {\n    type Output = Result<T, AggregateError<E, N>>;\n"
+                "    fn poll(self: Pin<&mut Self>, cx: &mut Context<'_>) -> Poll<Self::Output> {\n        %s\n    }\n}\n" % (G, ' '.join(body)))
+    drop_txt = ("impl<%s> PinnedDrop for RaceOk<Fut, T, E, N> {\n    fn drop(self: Pin<&mut Self>) {\n        %s\n    }\n}\n" % (G, ' '.join(dbody)))
+    return struct_txt + "\n" + ctor_txt + "\n" + poll_txt + "\n" + drop_txt
+
 _CACHE = {}
 
 def normalised(repo, family, features='std'):
@@ -1016,7 +1165,7 @@ def normalised(repo, family, features='std'):
     t = _CACHE[key]
     texts = {}
     for k in range(1, 13):
-        texts[k] = norm_merge(t, k, repo) if family == 'merge' else norm_zip(t, k, repo) if family == 'zip' else norm_race(t, k, repo) if family == 'race' else norm_chain(t, k, repo) if family == 'chain' else norm_family(family, t, k, repo)
+        texts[k] = norm_merge(t, k, repo) if family == 'merge' else norm_zip(t, k, repo) if family == 'zip' else norm_race(t, k, repo) if family == 'race' else norm_chain(t, k, repo) if family == 'chain' else norm_race_ok(t, k, repo) if family == 'race_ok' else norm_family(family, t, k, repo)
     for k in range(2, 13):
         if texts[k] != texts[1]:
             a, b = texts[1].split(), texts[k].split()
